@@ -12,6 +12,11 @@ all-false, dummy values under missing entries, optional groups absent/empty, def
 omitted, shuffled key and creation order, foreign attributes and sibling nodes, and — counted separately —
 the string encoding (fixed width / variable length UTF8 as the specification prescribes) and the dtype of
 the var-length offset table.  geff.core_io.read_to_memory must return exactly the graph the store denotes.
+The LAYOUT of a variable-length property is the writer's choice too (the offset table only has to point into `data`):
+`lay_out` executes a plan (append order = any permutation, gaps, trailing cells, shared sections, no section under a
+missing entry; `enc["vlen_plan"]["nodes:<name>" | "edges:<name>"]`, or a plan drawn per property when
+`enc["vlen_layout"] == "free"`); harness/corr/_c02_layout.py enumerates the plans, and those stores are also read through
+GeffReader(...).build() unmasked and masked (theorems: GeffProps/C02Layout.lean).
 
 Model correspondence: model reader on the dump == real reader; Lean `denote` of the independent store ==
 the abstract graph (so independent writer and Lean decoder validate each other).
